@@ -276,19 +276,50 @@ func VerifC03_CachedInterface() {
 	// first access: unprotected record, enters the cache
 	got, err := acting.Get("t:a/k")
 	rt.Assert(err == nil && got == record.Record(stored), "cached/first-get-permitted")
-	// the record becomes protected (through the privileged interface)
+	// the record becomes protected (through the privileged interface): the
+	// stored object is flagged, or a protected record replaces it (a new
+	// object: the acting interface's cache still holds the old one)
 	secret, jewel := rt.Bool("secret"), rt.Bool("crownjewel")
-	if secret {
-		rt.Assert(privileged.MakeSecret("t:a/k") == nil, "cached/make-secret")
-	}
-	if jewel {
-		rt.Assert(privileged.MakeCrownJewel("t:a/k") == nil, "cached/make-crownjewel")
+	var repl *verifRec
+	if rt.Bool("protected-record-replaces-the-cached-one") {
+		repl = newRec("a/k", 6)
+		if secret {
+			repl.Meta().MakeSecret()
+		}
+		if jewel {
+			repl.Meta().MakeCrownJewel()
+		}
+		rt.Assert(privileged.Put(repl) == nil, "cached/privileged-replace")
+	} else {
+		if secret {
+			rt.Assert(privileged.MakeSecret("t:a/k") == nil, "cached/make-secret")
+		}
+		if jewel {
+			rt.Assert(privileged.MakeCrownJewel("t:a/k") == nil, "cached/make-crownjewel")
+		}
 	}
 	denied := rt.Any(rt.All(secret, !internal), rt.All(jewel, !local))
+	// possibly a batch put by the acting interface first (refused unless it
+	// has every privilege): it must not change what the interface may do
+	if rt.Bool("refused-batch-put-first") && !rt.All(local, internal) {
+		put := acting.PutMany("t")
+		rt.Assert(errors.Is(put(newRec("a/k", 8)), ErrPermissionDenied), "cached/batch-put-refused")
+	}
 	before := snap(c, "a/k")
-	switch rt.Choice("op", 6) {
+	switch rt.Choice("op", 8) {
+	case 6:
+		err = acting.Put(newRec("a/k", 9))
+	case 7:
+		err = acting.PutNew(newRec("a/k", 9))
 	case 0:
 		got, err = acting.Get("t:a/k")
+		if denied && repl != nil {
+			// The cache may go on serving the version it holds (documented):
+			// that is the old, unprotected record - never the protected one.
+			rt.Assert(got == nil || got == record.Record(stored), "cached/protected-record-never-returned")
+			rt.Reach("cached-denied")
+			return
+		}
 		if denied {
 			rt.Assert(got == nil, "cached/denied-no-record-returned")
 		}
